@@ -108,7 +108,6 @@ inductive Path where
   | chol | tri | diag | identity | closed | slq
   | kron (inner : Path)
   | kronFb (inner : Path)    -- KPADLO whose `_logdet` falls back to `super().inv_quad_logdet(logdet=True)[1]`
-  | kronD12 (inner : Path)   -- KPADLO, Kronecker-structured constant diagonal, n ≥ max_cholesky_size: `_logdet` raises (D12)
   | block (inner : Path) (k : Nat)
   | rep (inner : Path) (baseBatch rep : List Nat)
   deriving Repr
@@ -130,8 +129,10 @@ def repeatShape (rep s : List Nat) : List Nat :=
 def bothErr : Term × Term := (.err, .err)
 
 /-- What `Block{Diag,Interleaved}LinearOperator.inv_quad_logdet` does with the base operator's two results
-(`bb = batch ++ [k]` is the base operator's batch shape). -/
-def blockPost (batch : List Nat) (k : Nat) (reduce : Bool) : Term × Term → Term × Term
+(`bb = batch ++ [k]` is the base operator's batch shape).  Only the terms that were requested are
+post-processed (`hasRhs`, `logdet`): the base may return placeholders of any shape for the others
+(behaviour of notes/C05_fix_6.diff; before it the placeholders were post-processed too and the call raised). -/
+def blockPost (batch : List Nat) (k : Nat) (hasRhs logdet reduce : Bool) : Term × Term → Term × Term
   | (.err, _) => bothErr
   | (_, .err) => bothErr
   | (iq, ld) =>
@@ -139,7 +140,7 @@ def blockPost (batch : List Nat) (k : Nat) (reduce : Bool) : Term × Term → Te
     let iq' : Term :=
       match iq with
       | .shape s =>
-        if numel s != 0 then
+        if hasRhs && numel s != 0 then
           if reduce then (if numel s = numel bb then .shape batch else .err)   -- view(*base.batch_shape).sum(-1)
           else match s.getLast? with                                          -- view(*base.batch_shape, size(-1)).sum(-2)
             | some l => if numel s = numel bb * l then .shape (batch ++ [l]) else .err
@@ -148,27 +149,48 @@ def blockPost (batch : List Nat) (k : Nat) (reduce : Bool) : Term × Term → Te
       | t => t
     let ld' : Term :=
       match ld with
-      | .shape s => if numel s != 0 then (if s = [] then .err else .shape s.dropLast) else ld   -- view(*shape).sum(-1)
+      | .shape s => if logdet && numel s != 0 then (if s = [] then .err else .shape s.dropLast) else ld   -- view(*shape).sum(-1)
       | t => t
     match iq', ld' with
     | .err, _ => bothErr
     | _, .err => bothErr
     | a, b => (a, b)
 
+/-- `BatchRepeatLinearOperator.inv_quad_logdet`'s post-processing (requested terms only, as above). -/
+def repPost (batch baseBatch rep : List Nat) (rhs : Rhs) (logdet reduce : Bool) : Term × Term → Term × Term
+  | (.err, _) => bothErr
+  | (_, .err) => bothErr
+  | (iq, ld) =>
+    let r := numel rep
+    let iq' : Term :=
+      match iq, rhs with
+      | .shape s, .mat m =>
+        if numel s != 0 then
+          (if s = baseBatch ++ [m * r] then .shape (if reduce then batch else batch ++ [m]) else .err)
+        else iq
+      | t, _ => t
+    let ld' : Term :=
+      match ld with
+      | .shape s => if logdet && numel s != 0 then .shape (repeatShape rep s) else ld
+      | t => t
+    match iq' with
+    | .err => bothErr
+    | a => (a, ld')
+
+/- A 1-D right-hand side (allowed for unbatched operators only) is treated as a one-column matrix
+(behaviour of notes/C05_fix_2.diff; before it most closed-form classes raised on it). -/
 def shapes : Path → List Nat → Rhs → Bool → Bool → Term × Term
   | .chol, batch, rhs, logdet, reduce =>
     let ld := if logdet then Term.shape batch else .none
     match rhs with
     | .absent => (.none, ld)
-    | .vec => bothErr                       -- (R**2).sum(dim=-2) on the 1-D triangular solve
+    | .vec => if batch = [] then (.shape (redIf [1] reduce), ld) else bothErr
     | .mat m => (.shape (redIf (batch ++ [m]) reduce), ld)
   | .tri, batch, rhs, logdet, reduce =>
     let ld := if logdet then Term.shape batch else .empty
-    -- `if torch.sign(diag).prod(-1) < 0:` is a Python `bool()` of a tensor: raises unless it has one element
-    if logdet && numel batch != 1 then bothErr else
     match rhs with
     | .absent => (.empty, ld)
-    | .vec => bothErr
+    | .vec => if batch = [] then (.shape (redIf [1] reduce), ld) else bothErr
     | .mat m => (.shape (redIf (batch ++ [m]) reduce), ld)
   | .diag, batch, rhs, logdet, reduce =>
     let ld := if logdet then Term.shape batch else .empty
@@ -186,7 +208,7 @@ def shapes : Path → List Nat → Rhs → Bool → Bool → Term × Term
     let ld := if logdet then Term.shape batch else .none
     match rhs with
     | .absent => (.none, ld)
-    | .vec => bothErr
+    | .vec => if batch = [] then (.shape (redIf [1] reduce), ld) else bothErr
     | .mat m => (.shape (redIf (batch ++ [m]) reduce), ld)
   | .slq, batch, rhs, logdet, reduce =>
     if logdet then
@@ -216,43 +238,16 @@ def shapes : Path → List Nat → Rhs → Bool → Bool → Term × Term
       | .err, _ => bothErr
       | _, .err => bothErr
       | t, l => (t, l)
-  | .kronD12 inner, batch, rhs, logdet, reduce =>
-    if logdet then bothErr else
-    match rhs with
-    | .absent => (.none, .none)
-    | _ =>
-      match (shapes inner batch rhs false reduce).1 with
-      | .err => bothErr
-      | t => (t, .none)
   | .block inner k, batch, rhs, logdet, reduce =>
     match rhs with
-    | .vec => bothErr
-    | _ => blockPost batch k reduce (shapes inner (batch ++ [k]) rhs logdet reduce)
+    | .vec => if batch = [] then blockPost batch k true logdet reduce (shapes inner (batch ++ [k]) (.mat 1) logdet reduce)
+              else bothErr
+    | .absent => blockPost batch k false logdet reduce (shapes inner (batch ++ [k]) .absent logdet reduce)
+    | .mat m => blockPost batch k true logdet reduce (shapes inner (batch ++ [k]) (.mat m) logdet reduce)
   | .rep inner baseBatch rep, batch, rhs, logdet, reduce =>
     match rhs with
-    | .vec => bothErr
-    | _ =>
-      let r := numel rep
-      let rhs' := match rhs with | .mat m => Rhs.mat (m * r) | x => x
-      match shapes inner baseBatch rhs' logdet false with
-      | (.err, _) => bothErr
-      | (_, .err) => bothErr
-      | (iq, ld) =>
-        let iq' : Term :=
-          match iq with
-          | .shape s =>
-            if numel s != 0 then
-              match rhs with
-              | .mat m => if s = baseBatch ++ [m * r] then .shape (if reduce then batch else batch ++ [m]) else .err
-              | _ => .err                    -- `output_shape` is unbound / the view fails
-            else iq
-          | t => t
-        let ld' : Term :=
-          match ld with
-          | .shape s => if numel s != 0 then .shape (repeatShape rep s) else ld
-          | t => t
-        match iq' with
-        | .err => bothErr
-        | a => (a, ld')
+    | .vec => bothErr                        -- a BatchRepeat operator always has a batch: explicit dimension check
+    | .absent => repPost batch baseBatch rep .absent logdet reduce (shapes inner baseBatch .absent logdet false)
+    | .mat m => repPost batch baseBatch rep (.mat m) logdet reduce (shapes inner baseBatch (.mat (m * numel rep)) logdet false)
 
 end LinOp.C05
